@@ -31,7 +31,7 @@ import numpy as np
 from hypothesis import strategies as st
 
 from vlib.runner import Sub, Violation, Reject, Inconclusive, ok
-from vlib.util import reldiff, maxabs
+from vlib.util import fl, reldiff, maxabs
 from vlib import wbsys
 
 PROPERTY_ID = "C22"
@@ -61,8 +61,19 @@ def case_st(draw):
         for key in ("a", "b", "c"):
             lat[key] = draw(st.sampled_from([1.0, 3.0, 0.75, 2.0, 3.0, 1.5, 1.0, 2.5]))
         lat["commensurate"] = True
-    shape = draw(st.sampled_from(["uniform", "any", "any"]))
-    if shape == "uniform":
+    shape = draw(st.sampled_from(["uniform", "any", "any", "layered"]))
+    if shape == "layered":
+        # layered sampling of a non-orthogonal cell: in-plane mesh N x N x 1 and an out-of-plane mesh step that is
+        # r = 1.8 .. 4.5 times longer than the in-plane one, so that the shell search has to go far out in the plane
+        # (up to the border of its search box) before the stencil is complete
+        lat = draw(wbsys.lattice_st(kinds=["hexagonal", "hexagonal60", "monoclinic", "triclinic", "rhombohedral"]))
+        n = draw(st.integers(1, 4))
+        r = draw(fl(1.8, 4.5, digits=3))
+        lat["a"] = lat["b"] = draw(fl(1.0, 3.0))
+        lat["c"] = float(np.sqrt(3) * lat["a"] * n / (2 * r))
+        lat["layered"] = True
+        mp = [n, n, 1]
+    elif shape == "uniform":
         n = draw(st.integers(1, 3))
         mp = [n, n, n]
     else:
